@@ -11,6 +11,21 @@ CORE_FAMILIES = ("core::clone", "core::convert", "core::default", "core::fmt", "
                  "core::borrow", "core::mem::size_of")
 
 
+# families of `core` through which hidden shared state, nondeterminism or raw memory can enter; every
+# other function of `core` is a deterministic function of its arguments (no clock, no RNG, no global
+# state exists in `core` outside these)
+CORE_DENIED = ("core::sync", "core::cell", "core::ptr", "core::task", "core::future", "core::arch", "core::alloc", "core::ffi",
+               "core::random", "core::mem::transmute", "core::mem::zeroed", "core::mem::uninitialized", "core::mem::MaybeUninit",
+               "core::mem::maybe_uninit", "core::hint::spin_loop", "core::hint::unreachable_unchecked", "core::thread", "core::os")
+CORE_INTRINSICS_OK = ("core::intrinsics::discriminant_value", "core::intrinsics::size_of", "core::intrinsics::min_align_of")
+
+
+def core_call_denied(path):
+    if "core::intrinsics" in path:
+        return not any(x in path for x in CORE_INTRINSICS_OK)
+    return any(path.startswith(f) or ("<" in path and f in path) for f in CORE_DENIED)
+
+
 def sloc(x):
     sp = x.get("span")
     return "%s:%d" % (sp["file"], sp["line"]) if sp else None
@@ -120,7 +135,7 @@ def check_outgoing_calls(rep, fb):
                         continue
                     if ck not in ALLOWED_KRATES:
                         bad.append("%s calls %s (crate %s)" % (b["path"], cp, ck))
-                    elif ck == "core" and not any(cp.startswith(f) or ("<" in cp and f in cp) for f in CORE_FAMILIES):
+                    elif ck == "core" and core_call_denied(cp):
                         bad.append("%s calls %s" % (b["path"], cp))
         rep.ob("own.calls-allow-listed", cr.name, not bad, "; ".join(bad[:5]) or "%d call sites, all inside allow-listed deterministic callee families" % total)
 
@@ -268,6 +283,42 @@ def check_wrapper_debug(rep, fb):
                 rep.ob("leak.alias-debug-opaque", inst, True, "aliased type %s has no Debug impl with MIR in cipher" % target)
 
 
+def zeroized_paths(cr, body, depth=0):
+    """{(argument index, field path tuple)} wiped by Zeroize::zeroize on every path through `body`,
+    directly or through workspace helper functions that receive a reference derived from an argument
+    (`self.state.wipe()`); () as path = the whole pointee of that argument."""
+    if depth > 4:
+        return set()
+    dom = G.dominators(body)
+    rets = G.return_blocks(body)
+    out = set()
+    for i, t, fn in G.calls(body):
+        if not all(i in dom[r] for r in rets):
+            continue
+        if not t["args"]:
+            continue
+        if fn.get("trait", "").endswith("Zeroize") and fn["name"] == "zeroize":
+            a0 = t["args"][0]
+            if a0["k"] in ("copy", "move"):
+                src = G.ref_source(body, a0["place"]["local"], types=cr.types)
+                if src:
+                    out.add((src[0], tuple(str(x) for x in src[1])))
+            continue
+        callee = cr.by_path.get((fn.get("resolved") or fn)["path"]) or cr.by_path.get(fn["path"])
+        if callee is None or not fn.get("local"):
+            continue
+        inner = zeroized_paths(cr, callee, depth + 1)
+        for (ai, fpath) in inner:
+            if ai - 1 >= len(t["args"]):
+                continue
+            a = t["args"][ai - 1]
+            if a["k"] in ("copy", "move"):
+                src = G.ref_source(body, a["place"]["local"], types=cr.types)
+                if src:
+                    out.add((src[0], tuple(str(x) for x in src[1]) + fpath))
+    return out
+
+
 def drop_zeroizes(cr, im):
     """set of self fields passed to Zeroize::zeroize on every path of Drop::drop."""
     body = None
@@ -276,19 +327,11 @@ def drop_zeroizes(cr, im):
             body = b
     if body is None:
         return None, set()
-    dom = G.dominators(body)
-    rets = G.return_blocks(body)
     covered = set()
-    for i, t, fn in G.calls(body):
-        if fn.get("trait", "").endswith("Zeroize") and fn["name"] == "zeroize":
-            if not all(i in dom[r] for r in rets):
-                continue
-            a0 = t["args"][0]
-            if a0["k"] in ("copy", "move"):
-                src = G.ref_source(body, a0["place"]["local"], types=cr.types)
-                if src and src[0] == 1 and src[1]:
-                    covered.add(src[1][0])
-                    covered.add(".".join(str(x) for x in src[1]))
+    for ai, fpath in zeroized_paths(cr, body):
+        if ai == 1 and fpath:
+            covered.add(fpath[0])
+            covered.add(".".join(fpath))
     return body, covered
 
 
